@@ -129,7 +129,9 @@ Flat(qq) == IF qq = <<>> THEN <<>> ELSE Head(qq) \o Flat(Tail(qq))
 \* ---- family hist: case kinds -----------------------------------------------------------------
 AllMuts == {"none", "envAll", "envAct", "envNon", "unset", "unsetAct", "expand", "expandAct", "cdTmp", "cdUp",
             "cdSub", "timeout", "def", "refX", "files", "stdin", "statusFail", "statusSkip", "actorNull", "obsT",
-            "syntaxErr", "envBA", "envCleanup", "defLate", "cdLate", "timeoutLate", "homeConf", "inclShared"}
+            "syntaxErr", "envBA", "envCleanup", "defLate", "cdLate", "timeoutLate", "homeConf", "inclShared", "cdGone"}
+\* "cdGone": the case changes into a directory it makes and REMOVES it in [cleanup] - it ends standing in a directory
+\* that no longer exists; the next case begins where every case begins
 \* "inclShared": the case includes (in [setup]) a file that every such case includes, and which supplies an instruction
 \* of [assert] (org "incl": its text is in the shared file, the same for all cases).  What is included becomes part
 \* of THAT case only, before the case's own instructions of the phase - whatever other cases put after theirs
@@ -152,6 +154,7 @@ MutInstrs(m) ==
       [] m = "cdTmp"     -> <<I("cd", "tmp", "", NoVal)>>
       [] m = "cdUp"      -> <<I("cd", "up", "", NoVal)>>
       [] m = "cdSub"     -> <<I("dir", "act", "sub", NoVal), I("cd", "sub", "", NoVal)>>
+      [] m = "cdGone"    -> <<I("dir", "act", "sub", NoVal), I("cd", "sub", "", NoVal)>>
       [] m = "timeout"   -> <<I("timeout", "0", "", NoVal), I("sleep", "long", "", NoVal)>>
       [] m = "def"       -> <<I("def", "X", "", <<"x1">>), I("ref", "X", "", NoVal)>>
       [] m = "refX"      -> <<I("ref", "X", "", NoVal)>>
@@ -167,6 +170,7 @@ LateInstrs(m, p) ==
       [] m = "envCleanup" /\ p = "cleanup"   -> <<I("envSet", "all", "A", <<"ve">>), Probe("pc")>>
       [] m = "cdLate" /\ p = "cleanup"       -> <<I("cd", "tmp", "", NoVal), Probe("pc")>>
       [] m = "timeoutLate" /\ p = "cleanup"  -> <<I("timeout", "0", "", NoVal)>>
+      [] m = "cdGone" /\ p = "cleanup"       -> <<I("rmcwd", "", "", NoVal)>>
       [] OTHER                               -> <<>>
 
 \* The document of a case of kind <<m, e>>: it observes (p0), changes a setting, observes again (p1), runs an action
